@@ -615,6 +615,57 @@ func runC07(c *fw.Case) {
 		}
 	}
 
+	// ---- contexts are independent: a function registered in (or overriding a built-in of) one context
+	// must be invisible to the default context and to other contexts
+	if ic := g.column(model.KInt); ic != nil {
+		other := eval.NewDefaultCtx()
+		_ = other.SetFunc("abs", func(x int) int { return x + 1000 })
+		_ = other.SetFunc("onlyhere", func(x int) int { return -x })
+		src := sh.Col(ic.name)
+		n := sh.Len()
+		wantAbs, wantOther := model.NewCol("res", model.KInt, n), model.NewCol("res", model.KInt, n)
+		for r, v := range src.I {
+			wantOther.I[r] = v + 1000
+			if v < 0 {
+				v = -v
+			}
+			wantAbs.I[r] = v
+		}
+		type run struct {
+			name string
+			cfg  []eval.ConfigFunc
+			want *model.Col
+		}
+		for _, rn := range []run{{"overriding context", []eval.ConfigFunc{eval.EvalContext(other)}, wantOther}, {"default context", nil, wantAbs}, {"case context", []eval.ConfigFunc{eval.EvalContext(ctx)}, wantAbs}} {
+			c.Eval(1)
+			desc := fmt.Sprintf("Eval(\"res\", Expr(\"abs\", col(%q))) with the %s", ic.name, rn.name)
+			exprs = append(exprs, desc)
+			var res qframe.QFrame
+			if !c.GuardFail("eval-ctx", desc, func() { res = root.QF.Eval("res", qframe.Expr("abs", types.ColumnName(ic.name)), rn.cfg...) }) {
+				continue
+			}
+			if res.Err != nil {
+				c.Fail("err:context", "%s rejected: %v", desc, res.Err)
+				continue
+			}
+			if got, oerr := model.ObserveGuard(res); oerr == nil {
+				if gc := got.Col("res"); gc == nil || gc.Kind != model.KInt || model.Diff(&model.Frame{Cols: []*model.Col{rn.want}}, &model.Frame{Cols: []*model.Col{gc}}) != "" {
+					c.Fail("context-leak:value", "%s does not compute the function registered in that context (another context's \"abs\" leaked?)", desc)
+				}
+			}
+		}
+		for _, nm := range []string{"onlyhere", "ui1"} {
+			c.Eval(1)
+			c.Nontrivial("ctx-unknown", nm, idKey(sh.IDs()))
+			desc := fmt.Sprintf("Eval(\"res\", Expr(%q, col(%q))) with the default context (function only registered in another context)", nm, ic.name)
+			exprs = append(exprs, desc)
+			var res qframe.QFrame
+			if c.GuardFail("eval-ctx", desc, func() { res = root.QF.Eval("res", qframe.Expr(nm, types.ColumnName(ic.name))) }) && res.Err == nil {
+				c.Fail("context-leak:unknown-function-accepted", "%s returned no Err", desc)
+			}
+		}
+	}
+
 	// ---- known-invalid expressions must give Err
 	type bad struct {
 		name string
